@@ -41,6 +41,8 @@ def define_pipeline(data, shape, shard_index=0, num_shards=1):
   from ml_metrics._src.aggregates import rolling_stats  # pylint: disable=g-import-not-at-top
   from ml_metrics._src.chainables import io, transform  # pylint: disable=g-import-not-at-top
   src = io.SequenceDataSource(data).shard(shard_index, num_shards)
+  if shape.get('oneshot'):
+    src = iter(src)      # a source that can be read once: every run has to build its own pipeline
   t = transform.TreeTransform.new(num_threads=shape.get('num_threads', 0)).data_source(src)
   if shape.get('poison'):
     t = t.assign('x', fn=col_fail_on(tuple(shape['poison'])), input_keys='a')
@@ -60,6 +62,11 @@ def define_pipeline(data, shape, shard_index=0, num_shards=1):
   if shape.get('second_agg'):
     t = t.add_aggregate(fn=rolling_stats.Counter().as_agg_fn(), input_keys='a', output_keys='cnt')
   return t
+
+
+def define_pipeline_h(data_t, shape_t, shard_index=0, num_shards=1):
+  """define_pipeline with hashable arguments (tuples): data_t = tuple of tuples of ints, shape_t = sorted shape items."""
+  return define_pipeline([{'a': list(b)} for b in data_t], dict(shape_t), shard_index, num_shards)
 
 
 def canon(x):
